@@ -20,6 +20,7 @@ type Msg struct {
 	Vals []gen.JV `json:"vals,omitempty"`
 	Retr bool     `json:"retr,omitempty"`
 	T    int64    `json:"t,omitempty"` // event time / watermark, unix ns; 0 = zero time.Time for records
+	Z    int      `json:"z,omitempty"` // zone offset (seconds) the event time is expressed in; every use builds a fresh *time.Location
 }
 
 func (m Msg) String() string {
@@ -55,7 +56,11 @@ func NsOf(t time.Time) int64 {
 }
 
 func (m Msg) Record() execution.Record {
-	return execution.NewRecord(gen.Octs(m.Vals), m.Retr, TimeOf(m.T))
+	t := TimeOf(m.T)
+	if m.Z != 0 && m.T != 0 {
+		t = t.In(time.FixedZone("z", m.Z))
+	}
+	return execution.NewRecord(gen.Octs(m.Vals), m.Retr, t)
 }
 
 var ErrInjected = fmt.Errorf("injected source failure")
